@@ -12,6 +12,8 @@ SPECIAL_ATTRS = ("requireChild", "tagGroup", "topLevelTagGroup", "unique", "requ
 # (Nnn: the placeholder sits in a NESTED group of the definition)
 DEFS = "(Definition/Aaa, (Red, Blue)), (Definition/Bbb/#, (Age/#, Green)), (Definition/Nnn/#, (Red, (Age/#, Blue)))"
 DEF_USES = ["Def/Aaa", "Def/Bbb/4", "Def/aaa", "Def/Bbb/7", "Def/Nnn/5"]
+DEX_USES = ["(Def-expand/Aaa, (Red, Blue))", "(Def-expand/Bbb/4, (Age/4, Green))", "(Def-expand/aaa, (Blue, Red))",
+            "(Def-expand/Bbb/7, (Green, Age/7))", "(Def-expand/Nnn/5, (Red, (Age/5, Blue)))"]      # the expansions of DEF_USES
 VALUE_BY_CLASS = {"numericClass": "3", "textClass": "abc", "nameClass": "abc", "dateTimeClass": "2000-01-01T10:00:00"}
 
 
@@ -204,7 +206,7 @@ class Vocab:
         kinds = set(case["kind"])
         if kinds & {"dur", "del", "dur2", "del2"} and not self.dur_ok:
             return False
-        if ("on" in kinds or "off" in kinds or "def" in kinds) and not (self.has["Onset"] and self.has["Def"]):
+        if ("on" in kinds or "off" in kinds or "def" in kinds or "dex" in kinds) and not (self.has["Onset"] and self.has["Def"]):
             return False
         if "uq" in kinds and not self.has["Event-context"]:
             return False
@@ -288,6 +290,8 @@ def render(case, vocab, rot, allow_ph=False, style=0, perm=None, ns="", forms=No
             if vocab.def_unit and rot % (len(DEF_USES) + 1) == len(DEF_USES):
                 return ns + cs("Def/Ccc/") + vocab.def_unit[0]          # unit symbols keep their case
             return ns + cs(DEF_USES[rot % (len(DEF_USES) + 1) % len(DEF_USES)])
+        if kd == "dex":      # the Def-expand group of the same definition and value the "def" leaves of this tree use
+            return cs(DEX_USES[rot % (len(DEF_USES) + 1) % len(DEF_USES)])       # (only used without a namespace prefix)
         if kd == "on":
             return ns + cs("Inset" if (vocab.inset_ok and rot % 3 == 1) else "Onset")
         if kd == "off":
